@@ -38,7 +38,9 @@ F10_SIG = "kern-rule-mixes-R-and-L-bidi-glyphs"
 REP = [("A", 0x41), ("V", 0x56), ("T", 0x54), ("a", 0x61), ("o", 0x6F), ("period", 0x2E), ("hyphen", 0x2D), ("one", 0x31),
        ("two", 0x32), ("a-cy", 0x430), ("be-cy", 0x431), ("alpha", 0x3B1), ("alef-ar", 0x627), ("beh-ar", 0x628),
        ("one-ar", 0x661), ("alef-hb", 0x5D0), ("bet-hb", 0x5D1), ("ka-deva", 0x915), ("acutecomb", 0x301),
-       ("A.alt", None), ("V.sc", None), ("dash.case", None)]
+       ("A.alt", None), ("V.sc", None), ("dash.case", None),
+       ("ge-cy", 0x433), ("te-cy", 0x442), ("Gamma", 0x393), ("Tau", 0x3A4), ("comma", 0x2C)]
+MULTI_LTR = ["A", "V", "T", "a-cy", "be-cy", "ge-cy", "te-cy", "alpha", "Gamma", "Tau", "period", "comma", "hyphen"]
 VALUES = [Fr(-50), Fr(-51, 2), Fr(10), Fr(0), Fr(29, 4), Fr(-3), Fr(12), Fr(-75), Fr(5, 2)]
 
 FN = ("fun c : (kern_in * list obs_entry * list krule) => let '(i, obs, pairs) := c in "
@@ -50,7 +52,10 @@ def gen(rng):
     fam = rng.random()
     if fam < 0.35:     # single script family (Latin + common)
         pool = [r for r in REP if r[0] in ("A", "V", "T", "a", "o", "period", "hyphen", "one", "two", "acutecomb", "A.alt", "V.sc")]
-    elif fam < 0.6:    # RTL heavy
+    elif fam < 0.5:    # three left-to-right scripts whose glyphs share groups (look-alikes): script buckets overlap in chains
+        pool = [r for r in REP if r[0] in MULTI_LTR]
+        n = rng.randint(9, 13)
+    elif fam < 0.7:    # RTL heavy
         pool = [r for r in REP if r[0] in ("alef-ar", "beh-ar", "one-ar", "alef-hb", "bet-hb", "period", "hyphen", "one", "A", "acutecomb")]
     else:
         pool = list(REP)
@@ -60,7 +65,7 @@ def gen(rng):
     for side in ("1", "2"):
         avail = list(names)
         rng.shuffle(avail)
-        for gi in range(rng.randint(0, 3)):
+        for gi in range(rng.randint(0, 3) if n < 9 else rng.randint(2, 4)):
             k = rng.randint(1, 3)
             members, avail = avail[:k], avail[k:]
             if not members:
@@ -75,7 +80,7 @@ def gen(rng):
     g1 = [g for g in groups if g.startswith("public.kern1.")]
     g2 = [g for g in groups if g.startswith("public.kern2.")]
     kerning = {}
-    for _ in range(rng.randint(1, 10)):
+    for _ in range(rng.randint(1, 10) if n < 9 or rng.random() < 0.3 else rng.randint(8, 18)):
         s1 = rng.choice(g1) if g1 and rng.random() < 0.5 else rng.choice(names + ["ghost"] * (rng.random() < 0.05))
         s2 = rng.choice(g2) if g2 and rng.random() < 0.5 else rng.choice(names)
         kerning[(s1, s2)] = rng.choice(VALUES)
@@ -185,7 +190,62 @@ def f10_explains(desc, spy, a, b):
     return False
 
 
+def merge_scripts_section(ctx):
+    """kernFeatureWriter.mergeScripts against its Gallina transcription (Kern/Merge.v) and against the statement proved
+    about it: merged script sets are pairwise disjoint, every bucket (scripts and pairs) lies inside one of them"""
+    from ufo2ft.featureWriters.kernFeatureWriter import mergeScripts
+    rng = ctx.subrng("merge")
+    POOL = ["Latn", "Cyrl", "Grek", "Armn", "Geor", "Zyyy", "Arab", "Hebr"]
+    cases, meta = [], []
+    for i in range(ctx.budget(300, 3000)):
+        keys = []
+        style = rng.random()
+        if style < 0.4:
+            # a chain a-b, b-c, c-d ... presented in a shuffled order, plus unrelated buckets
+            chain = rng.sample(POOL, rng.randint(3, 6))
+            keys = [tuple(sorted(chain[j:j + 2])) for j in range(len(chain) - 1)]
+            keys += [(x,) for x in rng.sample(POOL, rng.randint(0, 3))]
+            rng.shuffle(keys)
+        else:
+            for _ in range(rng.randint(0, 7)):
+                keys.append(tuple(sorted(rng.sample(POOL, rng.choice([1, 1, 2, 2, 3])))))
+        if rng.random() < 0.03:
+            keys.insert(rng.randrange(len(keys) + 1), ())
+        inp, nid = {}, 0
+        for k in keys:
+            if k not in inp:
+                inp[k] = []
+            for _ in range(rng.randint(1, 3)):
+                inp[k].append(nid); nid += 1
+        case = {"kerningPerScript": [[list(k), v] for k, v in inp.items()]}
+        try:
+            out = mergeScripts({k: list(v) for k, v in inp.items()})
+            obs = "(Some %s)" % G.lst([G.tup(G.lst([G.s(x) for x in k], "str"), G.lst([G.z(p) for p in v], "Z")) for k, v in out.items()],
+                                      "(list str * list Z)")
+            case["result"] = [[list(k), v] for k, v in out.items()]
+        except AssertionError:
+            obs = "(@None (list (list str * list Z)))"
+            case["result"] = "AssertionError"
+        g_in = G.lst([G.tup(G.lst([G.s(x) for x in k], "str"), G.lst([G.z(p) for p in v], "Z")) for k, v in inp.items()], "(list str * list Z)")
+        cases.append(G.tup(g_in, obs)); meta.append(case)
+        ctx.count(); ctx.klass("mergeScripts:%d buckets" % min(len(inp), 6))
+        if len(inp) >= 3:
+            ctx.nontriv(("merge", tuple(inp)))
+    vals = ctx.coq_eval("From U2F Require Import Base.Prelude Kern.Merge.",
+                        "fun c : (list (list str * list Z) * option (list (list str * list Z))) => c05_merge (fst c) (snd c)",
+                        cases, chunk=300, tag="Merge")
+    for v, case in zip(vals, meta):
+        if v is None:
+            continue
+        if not v & 2:
+            ctx.spec_failure(case, "mergeScripts: the merged buckets are not pairwise disjoint, or a bucket's scripts/pairs are not all inside "
+                                   "one merged bucket (its pairs would be missing under one of its scripts)")
+        elif not v & 1:
+            ctx.corr_mismatch(case, "Gallina merge_scripts differs from kernFeatureWriter.mergeScripts")
+
+
 def explore(ctx):
+    merge_scripts_section(ctx)
     from ufo2ft.featureWriters.kernFeatureWriter import KernFeatureWriter
     from ufo2ft.featureWriters.kernFeatureWriter2 import KernFeatureWriter as KernFeatureWriter2
     rng = ctx.subrng("kern")
